@@ -7,6 +7,7 @@ import (
 	"hash/fnv"
 	"math/rand"
 	"net"
+	"os"
 	"runtime"
 	"strings"
 	"sync"
@@ -33,6 +34,7 @@ type c05Round struct {
 	Gate      string // "" | "write.locked" | "write.pre_flush": hold the first writer there while the others try
 	MaxSize   int
 	StopMid   bool // the client reads nothing until Stop has been called while the handlers are stalled in Write
+	WTimeout  int  // ms; > 0: the server is created WithWriteTimeout and the client reads nothing until the write deadline has expired
 }
 
 func payload(w, k, size int, seed int64) string {
@@ -115,6 +117,9 @@ func C05(args []string) error {
 		add(c05Round{Writers: 8, Frames: 500, Transport: tr, MaxSize: 3500, Procs: 4, StopMid: true})
 		add(c05Round{Writers: 8, Frames: 3, Transport: tr, MaxSize: 3 << 20, Procs: 4, StopMid: true})
 	}
+	// WithWriteTimeout: the client stalls the writers beyond the connection's write deadline, then reads again
+	add(c05Round{Writers: 6, Frames: 3, Transport: "plain", MaxSize: 3 << 20, Procs: 4, WTimeout: 400})
+	add(c05Round{Writers: 12, Frames: 4, Transport: "plain", MaxSize: 2 << 20, Procs: 16, WTimeout: 300})
 	tm := getTLSMaterial()
 	for _, r := range rounds {
 		if err := c05Run(r, out, seed, tm); err != nil {
@@ -138,8 +143,11 @@ func c05Run(rd c05Round, out *hx.Out, seed int64, tm *tlsMaterial) error {
 	emit(tEvent{Ev: "reset", Val: fmt.Sprintf("%+v", rd)})
 	sizes := func(w, k int) int {
 		r := rand.New(rand.NewSource(seed*31 + int64(w)*7919 + int64(k)))
-		if rd.StopMid {
+		if rd.StopMid || (rd.WTimeout > 0 && (w == 1 || k > 1)) {
 			return rd.MaxSize/4 + r.Intn(rd.MaxSize*3/4)
+		}
+		if rd.WTimeout > 0 {
+			return 1 + r.Intn(200)
 		}
 		switch r.Intn(4) {
 		case 0:
@@ -208,7 +216,12 @@ func c05Run(rd c05Round, out *hx.Out, seed int64, tm *tlsMaterial) error {
 	if rd.Transport == "tls" {
 		ropts = append(ropts, gldap.WithTLSConfig(tm.server))
 	}
-	srv, err := hx.StartServer(mux, []gldap.Option{gldap.WithLogger(hx.NullLogger())}, ropts)
+	sopts := []gldap.Option{gldap.WithLogger(hx.NullLogger())}
+	if rd.WTimeout > 0 {
+		sopts = append(sopts, gldap.WithWriteTimeout(time.Duration(rd.WTimeout)*time.Millisecond))
+	}
+	dialAt := time.Now()
+	srv, err := hx.StartServer(mux, sopts, ropts)
 	if err != nil {
 		return err
 	}
@@ -253,16 +266,28 @@ func c05Run(rd c05Round, out *hx.Out, seed int64, tm *tlsMaterial) error {
 		return parseDiag(d)
 	}
 	startReading := make(chan struct{})
-	if !rd.StopMid {
+	if !rd.StopMid && rd.WTimeout == 0 {
 		close(startReading)
 	}
 	go func() {
 		defer close(recvDone)
 		<-startReading
 		for int(atomic.LoadInt64(&nrecv)) < total {
-			_ = c.C.SetReadDeadline(time.Now().Add(slowBudget.Timeout() + 5*time.Second))
+			if rd.WTimeout > 0 {
+				_ = c.C.SetReadDeadline(time.Now().Add(2 * time.Second))
+			} else {
+				_ = c.C.SetReadDeadline(time.Now().Add(slowBudget.Timeout() + 5*time.Second))
+			}
 			frame, err := berx.ReadFrame(c.R)
 			if err != nil {
+				if os.Getenv("VERIF_DEBUG") != "" {
+					fmt.Fprintf(os.Stderr, "C05DBG round %d reader ends: %v (partial %d bytes) nrecv=%d\n", rd.ID, err, len(frame), atomic.LoadInt64(&nrecv))
+				}
+				if ne, ok := err.(interface{ Timeout() bool }); ok && ne.Timeout() && rd.WTimeout > 0 {
+					// nothing more comes: after the write deadline every Write fails (the stream may end inside the frame
+					// of the Write that was cut short)
+					return
+				}
 				if ne, ok := err.(interface{ Timeout() bool }); ok && ne.Timeout() {
 					slowBudget.Spent()
 					return
@@ -333,6 +358,21 @@ func c05Run(rd c05Round, out *hx.Out, seed int64, tm *tlsMaterial) error {
 		case <-time.After(20 * time.Second):
 			emit(tEvent{Ev: "stop_timeout"})
 		}
+	} else if rd.WTimeout > 0 {
+		if err := c.Send(frames...); err != nil {
+			return err
+		}
+		for i := 0; i < rd.Writers; i++ {
+			select {
+			case <-started:
+			case <-time.After(3 * time.Second):
+			}
+		}
+		// nobody reads until the connection's write deadline (armed when it was accepted) has expired
+		if d := time.Until(dialAt.Add(time.Duration(rd.WTimeout)*time.Millisecond + 400*time.Millisecond)); d > 0 {
+			time.Sleep(d)
+		}
+		close(startReading)
 	} else if rd.Gate == "" {
 		if err := c.Send(frames...); err != nil {
 			return err
